@@ -2,7 +2,7 @@
 From TV Require Import Model.Segmenter Spec.UAX14.
 Open Scope Z_scope.
 
-(* F3: LB25 "(PR|PO) × (OP|HY) NU" is not applied when a combining mark sits between the opening
+(* F3 (repaired): LB25 "(PR|PO) × (OP|HY) NU" is not applied when a combining mark sits between the opening
    punctuation and the digit: "$(" U+0301 "1".  By LB9 the mark is part of "(", so no break is allowed
    between "$" and "("; the code looks at the raw next rune (the mark) and allows it. *)
 Definition o_dollar := mkObs LB_PR false false false false false GB_None WB_None false false false false false.
@@ -10,9 +10,12 @@ Definition o_paren := mkObs LB_OP false false false false false GB_None WB_None 
 Definition o_acute := mkObs LB_CM true false false false false GB_Extend WB_ExtendFormat false false false false false.
 Definition o_one := mkObs LB_NU false false false false false GB_None WB_Numeric false false false false true.
 
-Theorem line_lb25_mark_lookahead_refuted :
-  exists text, match compute_attrs text with
-               | Ok attrs => map (fun a => negb (a_line a)) attrs <> map (fun d => match d with Prohibited => true | _ => false end) (lb_spec text)
-               | _ => False
-               end.
-Proof. exists [o_dollar; o_paren; o_acute; o_one]. vm_compute. discriminate. Qed.
+(* F3 was repaired (startIteration now looks past the combining marks attached to an OP / HY); the former witness
+   is kept as a positive example: model and specification agree on it. *)
+Example line_lb25_mark_lookahead_repaired :
+  let text := [o_dollar; o_paren; o_acute; o_one] in
+  match compute_attrs text with
+  | Ok attrs => map (fun a => negb (a_line a)) attrs = map (fun d => match d with Prohibited => true | _ => false end) (lb_spec text)
+  | _ => False
+  end.
+Proof. vm_compute. reflexivity. Qed.
